@@ -6,15 +6,20 @@
     PT:<us>         a `pd.Timestamp`  (the `dt` cell it is `==` to)
     HF:<q> | HF:nan an `np.float32`   (the float cell it holds: value q/4, or NaN)
     DT:<us>         a `datetime.date` (its own constructor: `date != datetime`)
+    M8<unit>:<us>   an `np.datetime64[unit]` (unit D|h|s|ms|us|ns): the `dt` cell of its instant
+    TD:<us> | PD:<us> | m8<unit>:<us>   `datetime.timedelta` / `pd.Timedelta` / `np.timedelta64[unit]`: the duration `tdelta`
+    NaT:P | NaT:M | NaT:m   `pd.NaT`, `np.datetime64('NaT')`, `np.timedelta64('NaT')`: `nat`
     (L v*) (T v*)   list / tuple
     (D (hexkey v)*) plain dict;  (DC <n> (hexkey v)*)  dict subclass number n >= 1
-    (A <dtype> (<n>*) v*)        ndarray: dtype letter (ignored by the model: `eq` compares cells,
-                                 not dtypes), shape, cells row-major
+    (A <dtype> (<n>*) v*)        ndarray: dtype word (i f e b U o, Mns Mus Ms MD = datetime64, mns mus mD = timedelta64;
+                                 ignored by the model: `eq` compares cells, not dtypes), shape, cells row-major
     (S (label*) v*)              Series: index labels, values
     (DF (label*) (label*) v*)    DataFrame: index labels, column labels, cells row-major
   ops:  (eq eq x y)  (eq in x (L v*))  (eq pyeq x y)
+        (eq eqr x y)   the raising reading `eqR`: `ok B:_` or `err <kind>`
+        (eq eqpinned x y)   `eqPinned` (the ndarray branch as it was before fix F6c): `ok B:_` or `err <kind>`
 -/
-import PygModel.Eq
+import PygModel.EqR
 
 namespace Pyg.EqDriver
 open Pyg
@@ -30,6 +35,16 @@ def cellAtom : Sexp → Option Cell
 partial def ofSexp : Sexp → Option EVal
   | .atom s =>
     if s.startsWith "DT:" then (s.drop 3).toString.toInt?.map .date
+    else if s.startsWith "TD:" || s.startsWith "PD:" then (s.drop 3).toString.toInt?.map .tdelta
+    else if s.startsWith "M8" then
+      match s.splitOn ":" with
+      | [_, n] => n.toInt?.map fun us => .cell (.dt us)
+      | _ => Option.none
+    else if s.startsWith "m8" then
+      match s.splitOn ":" with
+      | [_, n] => n.toInt?.map .tdelta
+      | _ => Option.none
+    else if s == "NaT:P" || s == "NaT:M" || s == "NaT:m" then some .nat
     else (cellAtom (.atom s)).map .cell
   | .node (.atom "L" :: xs) => (xs.mapM ofSexp).map .list
   | .node (.atom "T" :: xs) => (xs.mapM ofSexp).map .tuple
@@ -76,6 +91,16 @@ def handle1 (op : String) (args : List Sexp) : Option String := do
       | .list xs => pure (bool (in_ a xs))
       | .tuple xs => pure (bool (in_ a xs))
       | _ => Option.none
+  | "eqr", [a, b] =>
+      let a ← ofSexp a; let b ← ofSexp b
+      match eqR a b with
+      | .ok v => pure (bool v)
+      | .error e => pure ("err " ++ e.render)
+  | "eqpinned", [a, b] =>
+      let a ← ofSexp a; let b ← ofSexp b
+      match eqPinned a b with
+      | .ok v => pure (bool v)
+      | .error e => pure ("err " ++ e.render)
   | "pyeq", [a, b] =>
       let a ← ofSexp a; let b ← ofSexp b
       if a.plain && b.plain then pure (bool (pyEqV a b)) else Option.none
